@@ -16,7 +16,7 @@ EmitTables == PrintT(<<"I", ToJson([h |-> H, w |-> W, v |-> V, nrect |-> NRect, 
                                      src |-> [c \in AllClasses |-> [k \in 1..Len(SrcSeqOf[c]) |-> Code(SrcSeqOf[c][k])]]])>>)
 
 \* per buffer state: the result of every enabled call
-EmitB ==
+EmitB == buf \in ExploreFrom =>
     LET S == SrcSeqOf[cls] IN
     PrintT(<<"B", ToJson([c |-> cls, b |-> Code(buf),
                           clear |-> Code(Apply(cls, buf, ClearCall)),
